@@ -46,9 +46,11 @@ PROPS = {
                 "all six reader entry points on the same bytes. Oracle: keys = independent full-path walk over the reference documents, pairwise agreement of "
                 "table, flattened, structured, per-chunk, matrix and series views incl. BSON types. Distinct = distinct byte stream.",
         "level_text": "Theorem keys_are_full_paths: for every document tree the decoder's metric keys are the dot-joined paths of every enclosing field name and "
-                      "array index (specification leafPaths written from the property text), in document order; one series per leaf; every view has the table's "
+                      "array index (specification leafPaths written from the property text), in document order; keys_are_distinct: distinct leaves never share a key, for every "
+                      "reference document whose field names are dot-free and distinct within each document (joinDot_inj: dot-joining is injective on dot-free segments; a "
+                      "counterexample with a dot in a name is proved next to it); one series per leaf; every view has the table's "
                       "keys, order and sample count (the views are functions of the one table in the model, and that model is diffed against all six entry points).",
-        "level_note": "Key uniqueness (injectivity of the dot-join on dot-free segments) is checked by the oracle on every case, not yet a theorem. "
+        "level_note": "The value clause (i-th value = integer normalisation of the leaf in the i-th sample) is C01's chunk_roundtrip plus the views being functions of the one table. "
                       "ReadSeries order was nondeterministic before fix F3; metric paths lost segments before fix F2.",
         "assumptions": ["keys without '.'"],
     },
